@@ -1,5 +1,5 @@
 //@unit props=C04,C03,C06,C05,C07,C08,C02 tier=quick rlimit=30
-//@file src/repr/adjacency_list_weighted/mod.rs
+//@file src/repr/adjacency_map/mod.rs
 #![feature(allocator_api)]
 use vstd::prelude::*;
 use vstd::set_lib::*;
@@ -13,9 +13,11 @@ use std::collections::btree_map::Entry;
 use std::alloc::Allocator;
 verus! {
 global size_of usize == 8;
-// std contracts needed by the imported fragments (as in units/weighted_more.rs)
+// std contracts needed by the imported fragments (as in units/map_more.rs)
 //@include prelude/std_contracts.rs
 //@include prelude/list_core_std.rs
+//@include prelude/weighted_map_std.rs
+//@include prelude/list_ops_std.rs
 //@include prelude/iter_wrappers.rs
 //@include prelude/blanket_std.rs
 //@include prelude/c13left_std.rs
@@ -25,6 +27,6 @@ global size_of usize == 8;
 //@include prelude/dg_ops.rs
 
 //@include units/inc/rep_trait_contracts_tc.inc.rs
-//@include units/inc/rep_trait_contracts_wm.inc.rs
+//@include units/inc/rep_trait_contracts_map.inc.rs
 } // verus!
 fn main() {}
